@@ -65,6 +65,23 @@ Theorem C13_flatten_app : forall a b, common_flowsets (a ++ b) = common_flowsets
 Proof. intros a b. unfold common_flowsets. apply flat_map_app. Qed.
 Print Assumptions C13_flatten_app.
 
+(* the fields the view projects are looked up by the library's NAME for them; these are the
+   element numbers RFC 3954 (table 6) and the IANA IPFIX registry give those names, checked on the
+   regenerated tables: number -> variant -> name, for both protocols *)
+Definition v9_field_anchors : list (N * string) :=
+  [(8, "Ipv4SrcAddr"); (12, "Ipv4DstAddr"); (27, "Ipv6SrcAddr"); (28, "Ipv6DstAddr"); (7, "L4SrcPort"); (11, "L4DstPort");
+   (4, "Protocol"); (22, "FirstSwitched"); (21, "LastSwitched"); (56, "InSrcMac"); (80, "InDstMac")]%N.
+Definition ipfix_field_anchors : list (N * string) :=
+  [(8, "SourceIpv4address"); (12, "DestinationIpv4address"); (27, "SourceIpv6address"); (28, "DestinationIpv6address");
+   (7, "SourceTransportPort"); (11, "DestinationTransportPort"); (4, "ProtocolIdentifier");
+   (22, "FlowStartSysUpTime"); (21, "FlowEndSysUpTime"); (56, "SourceMacaddress"); (80, "DestinationMacaddress")]%N.
+
+Theorem C13_field_anchors :
+  forallb (fun a => String.eqb (variant_name v9_variants (v9_from_u16 (fst a))) (snd a)) v9_field_anchors = true
+  /\ forallb (fun a => String.eqb (variant_name ipfix_variants (ipfix_from_u16 (fst a))) (snd a)) ipfix_field_anchors = true.
+Proof. split; vm_compute; reflexivity. Qed.
+Print Assumptions C13_field_anchors.
+
 (* The full statement ("absent only when the record has no such field", "one flow per record")
    is FALSE of the faithful model: the known-finding classes, each with its witness.
    K_C13_v9_protocol: a V9 record whose Protocol field decoded as a protocol name has no
